@@ -25,6 +25,7 @@ class Monitor(object):
 
     def violate(self, clause, detail):
         detail["after_resume_restart_of_blocked_interrupted_customer"] = bool(markers(self.hub).get("resume_restart_of_blocked_interrupted_customer"))
+        detail["history"] = markers(self.hub)
         self.hub.violate("C02", clause, detail)
 
     # -- helpers --------------------------------------------------------------------------------
